@@ -8,7 +8,9 @@ Require Import RP.Model.Base RP.Model.Packet RP.Model.Events RP.Model.Frame RP.M
    ANY polling schedule; B ticks once per poll.  Then B's handler log is, in order and exactly once
    each, (handler, packet) for every transmitted packet and every handler selected by C15's rule (all
    handlers if the packet is addressed to ownB or broadcast, else the capture-all ones); every tick
-   returns Ok; and every delivered packet decodes to the event that was sent.  Nothing else is delivered. *)
+   returns Ok; and every delivered packet decodes to the event that was sent.  Nothing else is delivered
+   (`deliveries` also lists, nested after a handler's entry, what that handler of B itself sends to B's own address - C15_tick;
+   there is none when B's handlers do not do that: C15_quiet). *)
 Definition e2e (M: machine) (fuel: nat) (s: list (tok M)) (ownA ownB: N) (tblB: table) (es: list event) : Prop :=
   i_sent (snd (send_all ownA (map encode es) (mkI [] [] []))) = sent_by ownA es /\
   Forall (fun r => r = Val tt) (fst (send_all ownA (map encode es) (mkI [] [] []))) /\
